@@ -232,6 +232,8 @@ class Engine:
             return z3.Real(prefix + name)
         if t.kind == "obj":
             return None
+        if t.kind == "const":
+            return t.shape[0]
         if t.kind == "dtype":
             lo, hi = z3.Int(prefix + name + "_dlo"), z3.Int(prefix + name + "_dhi")
             self.fact(z3.And(lo <= 0, hi >= 127, lo >= I64_MIN, hi <= 2 ** 64 - 1, z3.Or(lo == 0, lo == -hi - 1)))
@@ -644,6 +646,16 @@ class Engine:
                 r = z3.If(v >= 0, v, -v)
                 self.i64(r, st, spec)
                 return r
+            if name == "isinstance" and len(e.args) == 2 and not spec:
+                v = self.ev(e.args[0], st, spec, ctx)
+                tn = unparse(e.args[1])
+                if isinstance(v, str):
+                    return z3.BoolVal(tn == "str")
+                if v is None:
+                    return z3.BoolVal(False)
+                if is_num(v) and v.sort() == I and tn == "int":
+                    return z3.BoolVal(True)
+                raise OutOfSubset(f"isinstance({ast.unparse(e.args[0])}, {tn})")
             if name == "len" and len(e.args) == 1:
                 v = self.ev(e.args[0], st, spec, ctx)
                 if isinstance(v, SArr):
@@ -738,8 +750,20 @@ class Engine:
             arr = obj
             lo, hi = z3.IntVal(0), arr.shape[0]
             get = lambda k: self.sel(arr, [k])
+        elif isinstance(obj, SArr) and obj.ndim == 2:
+            # whole-matrix reduction: attained bound over both indices
+            arr = obj
+            n0, n1 = arr.shape
+            if not spec:
+                self.emit("nonempty", f"{txt}@{self.stmt_label()}", z3.And(n0 > 0, n1 > 0), st.guard, self.c.props)
+            m, w0, w1, k0, k1 = fresh("m"), fresh("w"), fresh("w"), fresh("k"), fresh("k")
+            cmp2 = (m <= self.sel(arr, [k0, k1])) if which == "min" else (m >= self.sel(arr, [k0, k1]))
+            self.fact(z3.Implies(z3.And(n0 > 0, n1 > 0), z3.And(
+                0 <= w0, w0 < n0, 0 <= w1, w1 < n1, m == self.sel(arr, [w0, w1]),
+                z3.ForAll([k0, k1], z3.Implies(z3.And(0 <= k0, k0 < n0, 0 <= k1, k1 < n1), cmp2)))), st.guard)
+            return m
         else:
-            raise OutOfSubset("min/max of 2-D array")
+            raise OutOfSubset("min/max of this value")
         if not spec:
             self.emit("nonempty", f"{txt}@{self.stmt_label()}", lo < hi, st.guard, self.c.props)
             if arr.wr is not None:
@@ -1141,7 +1165,7 @@ class Engine:
 
     def bind(self, tgt, val, st, s):
         if isinstance(tgt, ast.Name):
-            if isinstance(val, (z3.ExprRef, SArr, SView, SSlice, SOpt, tuple)) or val is None:
+            if isinstance(val, (z3.ExprRef, SArr, SView, SSlice, SOpt, tuple, str)) or val is None:
                 st.vars[tgt.id] = val
             else:
                 raise OutOfSubset(f"value {val!r}")
